@@ -1,0 +1,462 @@
+//! Wrappers that expose crate-private items to the verification harness.
+//!
+//! Nothing here changes behaviour: each function calls the crate-private item
+//! it names and converts the result into plain data.
+
+use ::std::{cmp::Ordering, num::NonZeroU64, num::NonZeroUsize, time::Duration};
+
+use crate::{
+    alloc::{AllocOp, ThreadAllocInfo},
+    benchmark::{BenchContext, BenchOptions},
+    config::{
+        filter::{Filter, FilterSet},
+        Action, SortingAttr,
+    },
+    counter::{AnyCounter, BytesFormat, KnownCounterKind},
+    divan::SharedContext,
+    stats::Stats,
+    time::{FineDuration, Timer, TscTimestamp},
+    util::thread::ThreadPool,
+    Bencher,
+};
+
+// ------------------------------------------------------------------ tallies
+
+/// Plain copy of a thread's allocation tally.
+///
+/// `ops` is indexed `[grow, shrink, alloc, dealloc]`, each `[count, size]`.
+#[derive(Clone, Copy, Debug, Default, PartialEq, Eq)]
+pub struct Tally {
+    pub ops: [[u64; 2]; 4],
+    pub current_count: i64,
+    pub max_count: i64,
+    pub current_size: i64,
+    pub max_size: i64,
+}
+
+impl Tally {
+    pub(crate) fn of(info: &ThreadAllocInfo) -> Self {
+        let mut ops = [[0u64; 2]; 4];
+        for (i, op) in AllocOp::ALL.iter().enumerate() {
+            let t = info.tallies.get(*op);
+            ops[i] = [t.count as u64, t.size as u64];
+        }
+        Self {
+            ops,
+            current_count: info.current_count as i64,
+            max_count: info.max_count as i64,
+            current_size: info.current_size as i64,
+            max_size: info.max_size as i64,
+        }
+    }
+
+    pub fn json(&self) -> String {
+        format!(
+            "{{\"grow\":[{},{}],\"shrink\":[{},{}],\"alloc\":[{},{}],\"dealloc\":[{},{}],\"cur_count\":{},\"max_count\":{},\"cur_size\":{},\"max_size\":{}}}",
+            self.ops[0][0], self.ops[0][1],
+            self.ops[1][0], self.ops[1][1],
+            self.ops[2][0], self.ops[2][1],
+            self.ops[3][0], self.ops[3][1],
+            self.current_count, self.max_count,
+            self.current_size, self.max_size,
+        )
+    }
+}
+
+/// Copy of the current thread's tally (`init` = allocate it on first use).
+pub fn tally_current(init: bool) -> Option<Tally> {
+    let info = if init {
+        ThreadAllocInfo::current()
+    } else {
+        ThreadAllocInfo::try_current()
+    }?;
+    // SAFETY: Read-only copy on the owning thread.
+    Some(Tally::of(unsafe { info.as_ref() }))
+}
+
+/// Clears the current thread's tally the way the sample loop does.
+pub fn tally_clear() {
+    if let Some(mut info) = ThreadAllocInfo::current() {
+        // SAFETY: Exclusive access on the owning thread.
+        unsafe { info.as_mut() }.clear();
+    }
+}
+
+pub fn ignore_alloc_flag() -> bool {
+    crate::alloc::IGNORE_ALLOC.get()
+}
+
+// --------------------------------------------------------------------- pool
+
+/// The crate-private broadcast thread pool.
+pub struct Pool(ThreadPool);
+
+impl Pool {
+    pub fn new() -> Self {
+        Self(ThreadPool::new())
+    }
+
+    pub fn broadcast<F: Sync + Fn(usize)>(&self, aux_threads: usize, task: F) {
+        self.0.broadcast(aux_threads, task)
+    }
+
+    pub fn par_extend<T, F>(
+        &self,
+        vec: &mut Vec<Option<T>>,
+        aux_threads: usize,
+        task: F,
+    ) where
+        F: Sync + Fn(usize) -> T,
+        T: Sync + Send,
+    {
+        self.0.par_extend(vec, aux_threads, task)
+    }
+}
+
+// -------------------------------------------------------------------- bench
+
+#[derive(Clone, Copy, Debug, PartialEq, Eq)]
+pub enum BenchAction {
+    Bench,
+    Test,
+}
+
+#[derive(Clone, Copy, Debug)]
+pub enum BenchTimer {
+    Os,
+    Tsc { frequency: u64 },
+}
+
+/// Everything the harness can observe after a `Bencher` was used.
+#[derive(Debug, Default)]
+pub struct BenchReport {
+    pub did_run: bool,
+    pub thread_count: usize,
+    pub sample_size: u32,
+    /// Stored sample durations in picoseconds, in storage order.
+    pub durations: Vec<u128>,
+    /// `(sample index, tally)` pairs.
+    pub allocs: Vec<(u32, Tally)>,
+    /// Per-kind counter values `[bytes, chars, cycles, items]`.
+    pub counts: [Vec<u64>; 4],
+    /// Whether the kind uses per-input counts.
+    pub input_counted: [bool; 4],
+    /// `None` if `compute_stats` was not requested; `Err(panic message)` if
+    /// it panicked.
+    pub stats: Option<Result<StatsData, String>>,
+}
+
+#[derive(Clone, Debug, Default, PartialEq)]
+pub struct Set<T> {
+    pub fastest: T,
+    pub slowest: T,
+    pub median: T,
+    pub mean: T,
+}
+
+#[derive(Clone, Debug, Default, PartialEq)]
+pub struct StatsData {
+    pub sample_count: u32,
+    pub iter_count: u64,
+    pub time: Set<u128>,
+    pub max_alloc_count: Set<f64>,
+    pub max_alloc_size: Set<f64>,
+    /// Indexed `[grow, shrink, alloc, dealloc]`.
+    pub tally_count: [Set<f64>; 4],
+    pub tally_size: [Set<f64>; 4],
+    /// Indexed `[bytes, chars, cycles, items]`.
+    pub counts: [Option<Set<u64>>; 4],
+}
+
+fn set<T, U>(s: &crate::stats::StatsSet<T>, f: impl Fn(&T) -> U) -> Set<U> {
+    Set {
+        fastest: f(&s.fastest),
+        slowest: f(&s.slowest),
+        median: f(&s.median),
+        mean: f(&s.mean),
+    }
+}
+
+pub(crate) fn stats_data(stats: &Stats) -> StatsData {
+    StatsData {
+        sample_count: stats.sample_count,
+        iter_count: stats.iter_count,
+        time: set(&stats.time, |d| d.picos),
+        max_alloc_count: set(&stats.max_alloc.count, |v| *v),
+        max_alloc_size: set(&stats.max_alloc.size, |v| *v),
+        tally_count: AllocOp::ALL
+            .map(|op| set(&stats.alloc_tallies.get(op).count, |v| *v)),
+        tally_size: AllocOp::ALL
+            .map(|op| set(&stats.alloc_tallies.get(op).size, |v| *v)),
+        counts: KnownCounterKind::ALL.map(|kind| {
+            stats.get_counts(kind).map(|s| set(s, |v| *v as u64))
+        }),
+    }
+}
+
+fn timer_of(timer: BenchTimer) -> Timer {
+    match timer {
+        BenchTimer::Os => Timer::Os,
+        BenchTimer::Tsc { frequency } => Timer::Tsc {
+            frequency: NonZeroU64::new(frequency).expect("non-zero frequency"),
+        },
+    }
+}
+
+/// Builds the crate-private contexts, hands a `Bencher` to `f`, and reports.
+///
+/// A panic raised by `f` propagates after the pool was dropped.
+pub fn with_bencher(
+    action: BenchAction,
+    timer: BenchTimer,
+    options: &BenchOptions<'_>,
+    thread_count: usize,
+    want_stats: bool,
+    f: impl FnOnce(Bencher<'_, '_>),
+) -> BenchReport {
+    let shared = SharedContext {
+        action: match action {
+            BenchAction::Bench => Action::Bench,
+            BenchAction::Test => Action::Test,
+        },
+        timer: timer_of(timer),
+        thread_pool: ThreadPool::new(),
+    };
+
+    let mut context = BenchContext::new(
+        &shared,
+        options,
+        NonZeroUsize::new(thread_count).expect("thread_count >= 1"),
+    );
+
+    f(Bencher::new(&mut context));
+
+    let mut report = crate::benchmark::verif_access::report(&context);
+    if want_stats {
+        report.stats = Some(
+            ::std::panic::catch_unwind(::std::panic::AssertUnwindSafe(|| {
+                stats_data(&context.compute_stats())
+            }))
+            .map_err(|p| super::sched::panic_message(&*p)),
+        );
+    }
+    report
+}
+
+/// Runs the statistics code over injected samples.
+pub fn compute_stats_injected(
+    sample_size: u32,
+    durations: &[u128],
+    allocs: &[(u32, Tally)],
+    counts: &[Vec<u64>; 4],
+    input_counted: [bool; 4],
+) -> Result<StatsData, String> {
+    let shared = SharedContext {
+        action: Action::Bench,
+        timer: Timer::Os,
+        thread_pool: ThreadPool::new(),
+    };
+    let options = BenchOptions::default();
+    let mut context = BenchContext::new(&shared, &options, NonZeroUsize::MIN);
+    crate::benchmark::verif_access::inject(
+        &mut context,
+        sample_size,
+        durations,
+        allocs,
+        counts,
+        input_counted,
+    );
+    ::std::panic::catch_unwind(::std::panic::AssertUnwindSafe(|| {
+        stats_data(&context.compute_stats())
+    }))
+    .map_err(|p| super::sched::panic_message(&*p))
+}
+
+pub(crate) fn info_of(t: &Tally) -> ThreadAllocInfo {
+    let mut info = ThreadAllocInfo::new();
+    for (i, op) in AllocOp::ALL.iter().enumerate() {
+        let slot = info.tallies.get_mut(*op);
+        slot.count = t.ops[i][0] as _;
+        slot.size = t.ops[i][1] as _;
+    }
+    info.current_count = t.current_count as _;
+    info.max_count = t.max_count as _;
+    info.current_size = t.current_size as _;
+    info.max_size = t.max_size as _;
+    info
+}
+
+// --------------------------------------------------------------------- time
+
+/// `TscTimestamp::duration_since` in picoseconds.
+pub fn tsc_duration_since(later: u64, earlier: u64, frequency: u64) -> u128 {
+    TscTimestamp { value: later }
+        .duration_since(
+            TscTimestamp { value: earlier },
+            NonZeroU64::new(frequency).expect("non-zero frequency"),
+        )
+        .picos
+}
+
+/// `FineDuration::from(Duration)`; `Err` holds the panic message.
+pub fn fine_from_duration(d: Duration) -> Result<u128, String> {
+    ::std::panic::catch_unwind(|| FineDuration::from(d).picos)
+        .map_err(|p| super::sched::panic_message(&*p))
+}
+
+/// `Timer::precision()` of a TSC timer of the given frequency (measured
+/// against the virtual clock when one is installed).
+pub fn timer_precision(frequency: u64) -> u128 {
+    timer_of(BenchTimer::Tsc { frequency }).precision().picos
+}
+
+// --------------------------------------------------------------- formatting
+
+pub fn fmt_duration(picos: u128) -> String {
+    FineDuration { picos }.to_string()
+}
+
+pub fn fmt_duration_with(
+    picos: u128,
+    precision: Option<usize>,
+    width: Option<usize>,
+) -> String {
+    let d = FineDuration { picos };
+    match (precision, width) {
+        (None, None) => format!("{d}"),
+        (Some(p), None) => format!("{d:.p$}"),
+        (None, Some(w)) => format!("{d:<w$}"),
+        (Some(p), Some(w)) => format!("{d:<w$.p$}"),
+    }
+}
+
+pub fn fmt_f64(val: f64, sig_figs: usize) -> String {
+    crate::util::fmt::format_f64(val, sig_figs)
+}
+
+pub fn fmt_bytes(val: f64, sig_figs: usize, binary: bool) -> String {
+    crate::util::fmt::format_bytes(val, sig_figs, bytes_format(binary))
+}
+
+fn bytes_format(binary: bool) -> BytesFormat {
+    if binary {
+        BytesFormat::Binary
+    } else {
+        BytesFormat::Decimal
+    }
+}
+
+fn kind_of(kind: usize) -> KnownCounterKind {
+    KnownCounterKind::ALL[kind]
+}
+
+/// Throughput text for counter kind `[bytes, chars, cycles, items][kind]`.
+pub fn fmt_throughput(
+    kind: usize,
+    count: u64,
+    picos: u128,
+    binary: bool,
+) -> String {
+    AnyCounter::known(kind_of(kind), count as _)
+        .display_throughput(FineDuration { picos }, bytes_format(binary))
+        .to_string()
+}
+
+// -------------------------------------------------------------------- order
+
+pub fn natural_cmp(a: &str, b: &str) -> Ordering {
+    crate::util::sort::natural_cmp(a, b)
+}
+
+fn attr_of(attr: usize) -> SortingAttr {
+    [SortingAttr::Kind, SortingAttr::Name, SortingAttr::Location][attr]
+}
+
+/// `SortingAttr::cmp_bench_arg_names` for two elements of `names`
+/// (attr: 0 = kind, 1 = name, 2 = location).
+pub fn cmp_arg_names(attr: usize, names: &[&str], i: usize, j: usize) -> Ordering {
+    attr_of(attr).cmp_bench_arg_names(&names[i], &names[j])
+}
+
+/// Sorts argument names exactly as `EntryTree::sort_by_attr` sorts the
+/// arguments of a leaf; returns the permutation as indices into `names`.
+pub fn sort_arg_names(
+    attr: usize,
+    reverse: bool,
+    names: &[&str],
+) -> Result<Vec<usize>, String> {
+    ::std::panic::catch_unwind(|| {
+        let attr = attr_of(attr);
+        let mut refs: Vec<&&str> = names.iter().collect();
+        refs.sort_by(|&a, &b| {
+            let o = attr.cmp_bench_arg_names(a, b);
+            if reverse {
+                o.reverse()
+            } else {
+                o
+            }
+        });
+        refs.into_iter()
+            .map(|r| crate::util::slice_ptr_index(names, r))
+            .collect()
+    })
+    .map_err(|p| super::sched::panic_message(&*p))
+}
+
+// ------------------------------------------------------------------ filters
+
+pub enum FilterSpec<'a> {
+    Regex(&'a str),
+    Exact(&'a str),
+}
+
+/// Builds a `FilterSet` by the given calls in order (`true` = include).
+pub fn filter_is_match(
+    calls: &[(bool, FilterSpec<'_>)],
+    path: &str,
+) -> Result<bool, String> {
+    let mut set = FilterSet::default();
+    for (inclusive, spec) in calls {
+        let filter = match spec {
+            FilterSpec::Regex(r) => Filter::Regex(
+                regex::Regex::new(r).map_err(|e| e.to_string())?,
+            ),
+            FilterSpec::Exact(s) => Filter::Exact((*s).to_owned()),
+        };
+        if *inclusive {
+            set.include(filter);
+        } else {
+            set.exclude(filter);
+        }
+    }
+    Ok(set.is_match(path))
+}
+
+// ------------------------------------------------------------------ options
+
+/// `self_.overwrite(other)`.
+pub fn options_overwrite(
+    self_: &BenchOptions<'static>,
+    other: &BenchOptions<'static>,
+) -> BenchOptions<'static> {
+    let o = self_.overwrite(other);
+    BenchOptions {
+        sample_count: o.sample_count,
+        sample_size: o.sample_size,
+        threads: o.threads.map(|t| ::std::borrow::Cow::Owned(t.into_owned())),
+        counters: o.counters,
+        min_time: o.min_time,
+        max_time: o.max_time,
+        skip_ext_time: o.skip_ext_time,
+        ignore: o.ignore,
+    }
+}
+
+/// Counter set as `[bytes, chars, cycles, items]`.
+pub fn counter_set_values(options: &BenchOptions<'_>) -> [Option<u64>; 4] {
+    KnownCounterKind::ALL.map(|k| options.counters.get(k).map(|v| v as u64))
+}
+
+pub fn known_parallelism() -> usize {
+    crate::util::known_parallelism().get()
+}
